@@ -356,9 +356,12 @@ def _proj_receiver(prop):
             head, body = g[0], g[1:]
             if prop == "C06":                      # accept / reject(kind) / panic
                 out += [l for l in body if l.startswith("r ")]
-            elif prop == "C07":                    # everything around rejections + persisted state
+            elif prop == "C07":                    # everything around rejections, finalize batches, persisted state
                 rej = any(l.startswith("r err") or l == "r panic" for l in body)
-                out += body if rej else [l for l in body if l.startswith(("r ", "pm ", "ps "))]
+                if rej or head.startswith(("@h", "@end")):
+                    out += body
+                else:
+                    out += [l for l in body if l.startswith(("r ", "pm ", "ps "))]
             elif prop == "C04":                    # finalize batches, stacks, acceptance, persisted state
                 if head.startswith(("@h", "@end", "@host")):
                     out += body
